@@ -10,6 +10,7 @@
 -/
 import NarseseModel.Fold
 import NarseseModel.Gen.Formats
+import Props.C03a
 set_option autoImplicit false
 
 namespace Narsese.Props.C03
@@ -39,32 +40,6 @@ def sameVocab (F : EFormat) (L : LFormat) : Bool :=
 theorem sameVocab_ascii : sameVocab Gen.asciiE Gen.asciiL = true := by decide +kernel
 theorem sameVocab_latex : sameVocab Gen.latexE Gen.latexL = true := by decide +kernel
 theorem sameVocab_han : sameVocab Gen.hanE Gen.hanL = true := by decide +kernel
-
-/-- the keyword→constructor table of the ENUM PARSER and the one of FOLD agree on every connecter
-(as sets of pairs; the parser's extra "operator" entry only rejects) -/
-theorem connecter_tables_agree (F : EFormat) :
-    ∀ e, e ∈ F.foldConnTable → e ∈ F.connecters := by
-  intro e he
-  simp only [foldConnTable, connecters, List.mem_cons, List.mem_nil_iff, or_false] at he ⊢
-  rcases he with h|h|h|h|h|h|h|h|h|h|h|h <;> simp [h]
-
-theorem connecter_tables_agree' (F : EFormat) :
-    ∀ e, e ∈ F.connecters → e.2 ≠ .operatorUnsupported → e ∈ F.foldConnTable := by
-  intro e he hne
-  simp only [foldConnTable, connecters, List.mem_cons, List.mem_nil_iff, or_false] at he ⊢
-  rcases he with h|h|h|h|h|h|h|h|h|h|h|h|h <;> simp_all
-
-/-- atoms: the prefix→kind tables of the enum parser and of fold hold the same pairs -/
-theorem atom_tables_agree (F : EFormat) : ∀ e, e ∈ F.foldAtomTable ↔ e ∈ F.atomHeads := by
-  intro e
-  simp only [foldAtomTable, atomHeads, List.mem_cons, List.mem_nil_iff, or_false]
-  constructor <;> (intro h; rcases h with h|h|h|h|h|h|h <;> simp [h])
-
-/-- copulas: fold uses the very table the enum parser uses (including the four derived copulas) -/
-theorem copula_table_shared (F : EFormat) (cop : Str) (s p : Term) (ck : CopK)
-    (h : F.copulaTable.find? (fun e => cop = e.1) = some (cop, ck)) :
-    F.foldStatement cop s p = .ok (ck.build s p) := by
-  simp [foldStatement, h]
 
 /-- keywords of one class are pairwise distinct in each shipped format, so "first entry equal to the
 keyword" (fold) and "the entry for that constructor" coincide -/
